@@ -96,6 +96,11 @@ func sliceAccumulator(v ssa.Value, loops []*core.Loop) (*core.Loop, *ssa.Call, [
 		if !loop.Blocks[pred] {
 			// initial value: nil or empty literal
 			if !core.IsNilConst(e) {
+				if mk, ok := e.(*ssa.MakeSlice); ok {
+					if z, isC := core.ConstInt(mk.Len); isC && z == 0 {
+						continue // make([]T, 0, n): empty with spare capacity
+					}
+				}
 				if sl, ok := e.(*ssa.Slice); ok {
 					if al, ok := sl.X.(*ssa.Alloc); ok {
 						if at, ok := al.Type().Underlying().(*types.Pointer).Elem().Underlying().(*types.Array); ok && at.Len() == 0 {
